@@ -1,6 +1,6 @@
 #!/bin/sh
 # run every registered quick check and print a one-line summary each
-cd /verif
+cd "$(dirname "$0")/.."
 for p in $(python3 -c "import sys; sys.path.insert(0,'tools'); import props; print(' '.join(sorted(props.PROPS)))"); do
   out=$(./check $p 2>&1); rc=$?
   echo "$p exit=$rc $(echo "$out" | grep -E 'done in' | sed 's/.*done in/done in/') $(echo "$out" | grep -c VIOLATION) violations"
